@@ -23,7 +23,7 @@ CJK = list('一二文字') + ['Ａ', 'あ']    # double width
 COMBINING = ['́', '̈', '​', '‍', '️']   # zero width
 CONTROLS = ['\x01', '\x07', '\x0b', '\x1b', '\x7f', '\x85', '\x9f']
 NONBMP = ['\U0001F600', '\U00020000', '\U0001D11E', '\U000E0001']
-SPECIAL = ['"', '\\', '{', '}', '&', '<', '>', "'", '\t', ' ', '　', '﻿', '￾', '￿', '\x00']
+SPECIAL = ['"', '\\', '{', '}', '&', '<', '>', "'", '\t', ' ', '　', '﻿', '￾', '￿', '\x00', '\ufffd', '\ufffc']
 
 def full_alphabet():
     a, u = keys()
